@@ -257,6 +257,28 @@ func applyDocEdit(doc *JV, op Op) bool {
 		}
 		pay.Set("advances", &JV{K: 'a', A: []*JV{mk(op.S2), mk(op.S2), mk("3.333%")}})
 		return true
+	case "mixrates":
+		// several lines taxed with different rate keys of the same category
+		if lines == nil || lines.K != 'a' || len(lines.A) == 0 {
+			return false
+		}
+		for len(lines.A) < 3 {
+			c := lines.A[0].Clone()
+			c.Del("i")
+			c.Del("uuid")
+			lines.A = append(lines.A, c)
+		}
+		keys := []string{"standard", "reduced", "zero", "super-reduced", "intermediate"}
+		n := 0
+		for i, l := range lines.A {
+			if ts := l.Get("taxes"); ts != nil && len(ts.A) > 0 && ts.A[0].Get("rate") != nil {
+				ts.A[0].Set("rate", JStr(keys[(i+int(op.I))%3]))
+				ts.A[0].Del("percent")
+				ts.A[0].Del("ext")
+				n++
+			}
+		}
+		return n > 0
 	case "codeweird":
 		// unusual but legal spellings that normalisers must bring to a stable form in ONE pass
 		k := []string{"code", "series"}[int(op.I)%2]
@@ -314,7 +336,7 @@ func applyDocEdit(doc *JV, op Op) bool {
 	return false
 }
 
-var editKinds = []string{"qty", "price", "rmline", "dupline", "note", "rounding", "custname", "code", "breakdown", "linedisc", "linecharge", "docdisc", "advances", "codeweird", "addrweird", "taxidweird", "amountprec"}
+var editKinds = []string{"qty", "price", "rmline", "dupline", "note", "rounding", "custname", "code", "breakdown", "linedisc", "linecharge", "docdisc", "advances", "codeweird", "addrweird", "taxidweird", "amountprec", "mixrates", "mixrates"}
 
 func genEdit(r *rand.Rand, id int) Op {
 	k := Pick(r, editKinds)
